@@ -109,6 +109,41 @@ def smear_direction_rule(chk, repo, clause):
             t_det = f'[{conds_str(p)[:60]}] sine / cosine are taken of ' + ' and '.join(sorted(fmt(v)[:40] for v in ta.values()))
     chk.ob(clause, 'D-flow', fs.key, 'sine and cosine of the projection take the same angle, in radians', t_ok,
            t_det or 'one angle per path', fs.loc())
+    # ... projected onto the direction of the smear: sin(angle) times the row frequency plus cos(angle) times the column
+    # frequency (the streak turns clockwise with the angle; the other sign is its mirror image for every oblique angle)
+    p_ok, p_det, n_p = None, 'undecided: the sinc argument is not a sum of (trig factor) x (frequency grid) terms', 0
+    for p in returns(sp):
+        for a in [x for x in nf.value_atoms(p.ret) if is_app(x, 'sinc')]:
+            arg = a[2][0]
+            if not isinstance(arg, Poly) or len(arg.terms) != 2:
+                continue
+            per_axis = {}
+            for mono, coef in arg.terms:
+                grids = [x for x, e in mono if is_app(x, 'meshgrid') and e == 1 and len(x[2]) == 4]
+                trig = [x for x, e in mono if is_app(x, ('sin', 'cos')) and e == 1]
+                if len(grids) != 1 or len(trig) != 1:
+                    per_axis = None
+                    break
+                g = grids[0]
+                idx = g[2][3]
+                k = int(idx.const_value()) if isinstance(idx, Poly) and idx.const_value() is not None else (idx if isinstance(idx, int) else None)
+                mode = g[2][2].value if isinstance(g[2][2], Const) else g[2][2]
+                if k not in (0, 1) or mode not in ('xy', 'ij'):
+                    per_axis = None
+                    break
+                axis = (1 - k) if mode == 'xy' else k          # the array axis along which this grid varies
+                per_axis[axis] = (trig[0][1], coef)
+            if not per_axis or set(per_axis) != {0, 1}:
+                continue
+            n_p += 1
+            good = per_axis[0][0] == 'sin' and per_axis[1][0] == 'cos' and per_axis[0][1] == per_axis[1][1]
+            if not good:
+                p_ok = False
+                p_det = (f'rows: {per_axis[0][1]}*{per_axis[0][0]}(angle), columns: {per_axis[1][1]}*{per_axis[1][0]}(angle); the documented '
+                         'direction is sin(angle)*rows + cos(angle)*columns')
+            elif p_ok is None:
+                p_ok, p_det = True, ''
+    chk.ob(clause, 'N-formula', fs.key, 'the smear runs along sin(angle) x rows + cos(angle) x columns', p_ok, p_det or f'{n_p} kernel(s)', fs.loc())
 
 
 def run(chk, repo, tier):
